@@ -23,23 +23,43 @@ THEOREMS = [
     "Mesa.Viz.C20_draw_ok_one_marker_per_agent",
     "Mesa.Viz.C20_V7_some_agents_optional_drawn",
     "Mesa.Viz.C20_empty_space_draws_nothing",
+    "Mesa.Viz.C20_default_size_defined",
+    "Mesa.Viz.C20_draw_kwargs",
+    "Mesa.Viz.C20_draw_kwargs_apply_to_every_marker",
     "Mesa.Viz.C20_hex_marker_at_hexagon_centre",
     "Mesa.Viz.C20_distinct_locations_distinct_positions",
     "Mesa.Viz.C20_altair_one_row_per_agent",
     "Mesa.Viz.C20_altair_row_values",
+    "Mesa.Viz.C20_altair_chart_encoding",
+    "Mesa.Viz.C20_altair_uniform_portrayal_encoded",
     "Mesa.Viz.C20_layer_image_orientation",
     "Mesa.Viz.C20_layer_hex_orientation",
     "Mesa.Viz.C20_V8_ravel_refuted",
+    "Mesa.Viz.C20_layer_level_bounds",
+    "Mesa.Viz.C20_layer_level_monotone",
+    "Mesa.Viz.C20_layer_level_determines_value",
+    "Mesa.Viz.C20_layer_auto_range",
+    "Mesa.Viz.C20_layer_cells_show_their_values",
+    "Mesa.Viz.C20_layers_drawn_are_the_requested_ones",
+    "Mesa.Viz.C20_layers_refused",
+    "Mesa.Viz.C20_draw_space_with_layers",
+    "Mesa.Viz.C20_V13_range_without_extent",
+    "Mesa.Viz.C20_layer_color_modes_agree_in_range",
     "Mesa.Viz.C20_check_accepts_iff_binds_by_keyword",
     "Mesa.Viz.C20_check_refuses_var_positional",
     "Mesa.Viz.C20_split_lossless_disjoint",
     "Mesa.Viz.C20_creator_checks_all_params",
+    "Mesa.Viz.C20_creator_params_lossless",
+    "Mesa.Viz.C20_user_inputs_one_per_adjustable_param",
+    "Mesa.Viz.C20_creator_accepts_iff_model_can_be_created",
+    "Mesa.Viz.C20_input_change_keeps_the_parameter_set",
 ]
 COUNTS = {"quick": 1600, "thorough": 60000}
 TRUSTED = [
     "matplotlib: Axes.scatter stores the x/y/s/c/marker/zorder/alpha/edgecolors/linewidths it is given in one PathCollection (read back through get_offsets/get_sizes/get_facecolors/get_edgecolors/get_linewidths/get_zorder/get_paths); slot i of a keyword array belongs to marker i (the model's `Group.drawn`); a marker whose alpha / edge colour / line width is the filled-in default (own colour's alpha, face colour, rcParams patch.linewidth) reads back like one drawn without the keyword; colour-name conversion, marker rendering, imshow(origin='lower') putting array row r at height r",
-    "Altair: Chart.to_dict() reports the rows given to alt.Data(values=...) unchanged",
-    "solara/reacton: solara.render runs the component function and its effects once (used for SpaceMatplotlib, SpaceAltair, ModelCreator; the Axes / Chart are taken from the post_process hook)",
+    "matplotlib, property layers: imshow(origin='lower') keeps the array, vmin / vmax / alpha / cmap it is given (read back through get_array, norm, get_alpha, get_cmap); a colormap maps level k/span to a colour of its own (the level behind a hexagon's colour is searched among the multiples of 1/span); Colorbar widens a range without extent by nonsingular(expander=0.1) (undone when read back) and does what it likes with an inverted range (not compared); the colour of a name (to_rgba)",
+    "Altair: Chart.to_dict() reports the rows given to alt.Data(values=...), the encoding channels (x / y type, colour, size, tooltip fields) and the mark properties unchanged; what Vega-Lite renders from them (a nominal colour scale maps colour names to scheme colours) is not modelled",
+    "solara/reacton: solara.render runs the component function, its children and then its effects once (used for SpaceMatplotlib, SpaceAltair, ModelCreator; the Axes / Chart are taken from the post_process hook; the inputs UserInputs creates are recorded at solara's boundary — the calls of solara.SliderInt / SliderFloat / Select / Checkbox / InputText —, an input is changed by calling its on_value); a reactive value set outside a render keeps the value",
     "networkx spring_layout(seed=0) is deterministic; the model keeps a node's label for its layout position",
     "numpy boolean masking / np.unique / set() over the marker and z-order arrays (the model keeps the distinct values; the order of the scatter calls is not compared)",
     "positions are exact integers (hex grids in units of sqrt(3)/2 and 1/2); IEEE rounding of the hex transform is checked with tolerance 1e-6, not modelled",
@@ -47,21 +67,24 @@ TRUSTED = [
     "space.agents enumerates cell by cell in the space's own cell order and inside a cell in arrival order (properties C06/C08/C10 own that; here it is the model's `spaceAgents`, compared on every scenario)",
 ]
 ASSUMPTIONS = [
-    "portrayal values are hashable scalars (colour names, marker symbols, ints; alpha as a float); colours mixing names and RGB tuples are outside the generator",
-    "2-D spaces; networks with at least two nodes (a one-node layout has zero extent: default marker size (180/0)^2 = inf, see design.d/C20.md)",
-    "a property layer drawn without explicit vmin/vmax is not constant (0/0 normalisation)",
+    "portrayal values are colour names, RGB / RGBA tuples (also mixed, V14), marker symbols, ints; alpha as a float; numbers to be colour-mapped are outside the generator",
+    "2-D spaces",
 ]
-RULE = ("40% space scenarios: one of 12 space classes (4 mesa.space grids, 3 discrete_space grids, 2 networks with shuffled / "
+RULE = ("40% space scenarios: one of 12 space classes (4 mesa.space grids, 3 discrete_space grids, 2 networks with 1-6 nodes, shuffled / "
         "non-contiguous node labels and possibly no edges, Voronoi, 2 continuous spaces), sizes 1-5, 0-6 agents with several per cell, "
-        "agents never placed, a pool of 0-4 portrayal dict *objects* shared between agents (keys color/size/marker/zorder, the optional "
+        "agents never placed, a pool of 0-4 portrayal dict *objects* shared between agents (keys color/size/marker/zorder, colours as names and as RGB(A) tuples — none / all / mixed —, the optional "
         "alpha/edgecolors/linewidths under an all/none/some policy, unsupported keys), interleaved place/move/remove/dict-rewrite/"
-        "re-portray ops and observations collect_agent_data / draw_space (Agg) / Altair _draw_grid / the solara components SpaceMatplotlib "
-        "and SpaceAltair / heap dump / property layer "
-        "(colormap or colour mode, explicit or automatic range), including observations of the space without agents; "
+        "re-portray ops and observations collect_agent_data / draw_space (Agg; also with plotting keywords alpha / edgecolors / linewidths) / Altair _draw_grid (rows, encoded channels, x/y type, tooltip fields, default "
+        "mark size) / the solara components SpaceMatplotlib and SpaceAltair with the portrayal and with their default portrayals / heap dump / the default marker size (all agents drawn with an empty portrayal) / property layers "
+        "(1-3 named layers, requests of 1-4 entries in any order incl. names the space has no layer for; colour or colormap or neither; "
+        "alpha absent / 25 / 50 / 100 %; range automatic, one-sided, explicit incl. without extent, cutting the data and inverted; colour bar "
+        "absent / on / off; constant layers; float and int layers; drawn repeatedly; on non-grid classes), including observations of the space without agents; "
         "60% parameter scenarios: 1-3 generated __init__ signatures (instance parameter named self/this, positional-only, missing; "
         "positional-only, positional-or-keyword, *args, keyword-only, **kwargs under any name, defaults) each with 2-6 key sets "
         "(required names mostly present, extras, the instance's name, positional-only names) through _check_model_params, "
-        "ModelCreator (solara.render) and split_model_params; plus, on every run, the exhaustive enumeration of all signature shapes "
+        "ModelCreator (solara.render) and split_model_params, and through ModelCreator on full parameter dicts (fixed ints and dicts, int / float "
+        "Slider objects, option dicts of the five supported and of unsupported types, with / without value and label) followed by changes of "
+        "inputs (model_parameters read back after each); plus, on every run, the exhaustive enumeration of all signature shapes "
         "with <= 3 parameters after the instance parameter x all key subsets (376 signatures, 6.1k checks); non-trivial = an observation of >= 2 agents or a check against >= 3 "
         "parameters; distinct = distinct op-line sequences (sha1)")
 
@@ -114,9 +137,9 @@ def nontrivial(sc, obs):
         w = l.split()
         if w[0] in ("collect", "collectd") and re.match(r"ok n=([2-9]|\d\d)", o):
             return True
-        if w[0] in ("draw", "drawc") and sum(int(n) for n in re.findall(r" n=(\d+)", o)) >= 2:
+        if w[0] in ("draw", "drawc", "drawc0", "drawk", "drawsp") and sum(int(n) for n in re.findall(r" n=(\d+)", o)) >= 2:
             return True
-        if w[0] in ("altair", "altairc") and o.count(" | ") >= 2:
+        if w[0] in ("altair", "altairc", "altairc0") and o.count(" | ") >= 2:
             return True
     if sc.lines[0] == "scenario params":
         return any(l.startswith("sig ") and len(l.split()) >= 4 for l in sc.lines)
@@ -136,19 +159,31 @@ def tags(sc, obs):
                 placed += 1
             if w[0] == "remove" and o == "ok":
                 placed -= 1
-            if w[0] in ("collect", "collectd", "draw", "drawc", "altair", "altairc"):
+            if w[0] in ("collect", "collectd", "draw", "drawc", "drawc0", "drawk", "altair", "altairc", "altairc0"):
                 if placed == 0:
                     yield "branch:observe-empty-space"
                 if o.startswith("err"):
                     yield "result:" + o
-            if w[0] in ("draw", "drawc") and o.count(" | ") >= 2:
+            if w[0] == "drawk":
+                yield "drawk:" + ("refused" if o.startswith("err Value conflict") else "dropped" if w0[2] in ("cs", "xcs", "vor") else "applied")
+            if w[0] in ("draw", "drawc", "drawc0", "drawk") and o.count(" | ") >= 2:
                 yield "branch:several-scatter-groups"
             if w[0] in ("collect", "collectd") and "None" in o and o.startswith("ok"):
                 yield "branch:optional-key-for-some-agents"
             if w[0] in ("collect", "collectd") and "ign=-" not in o and o.startswith("ok"):
                 yield "branch:ignored-fields-warning"
             if w[0] == "drawlayer":
-                yield "layer:" + w[1] + ":" + o.split()[1] if o.startswith("ok") else "layer:err"
+                yield "layer:" + w[1] + ":" + (o.split()[3] if o.startswith("ok |") else o)
+            if w[0] == "drawsp":
+                yield "drawsp:" + (o if o.startswith("err") else "empty-request" if len(w) == 1 else "agents+layers")
+            if w[0] == "drawlayers":
+                yield "layers:" + (o if o.startswith("err") else f"{o.count(' | ')}-of-{len(w) - 1}")
+                for t in w[1:]:
+                    f = t.split(":")
+                    yield "layer-mode:" + f[1].split("=")[0]
+                    yield "layer-range:" + ("auto" if f[3] == f[4] == "-" else "one-sided" if "-" in (f[3], f[4]) else
+                                            "no-extent" if f[3] == f[4] else "inverted" if int(f[4]) < int(f[3]) else "explicit")
+                    yield "layer-colorbar:" + f[5]
         ps = [l.split() for l in sc.lines if l.startswith("portray ")]
         refs = [p[2] for p in ps if p[2] != "-"]
         if len(refs) != len(set(refs)):
@@ -157,8 +192,12 @@ def tags(sc, obs):
         for l, o in zip(sc.lines[1:], obs[1:]):
             w = l.split()
             yield "op:" + w[0]
-            if w[0] in ("check", "creator"):
-                yield "result:" + " ".join(o.split()[:2])
+            if w[0] in ("check", "creator", "inputs", "change"):
+                yield ("" if w[0] in ("check", "creator") else w[0] + "-") + "result:" + " ".join(o.split()[:2 if o.startswith("err") else 1])
+            if w[0] == "inputs":
+                for t in w[1:]:
+                    f = t.split(":")[1].split("/")
+                    yield "input:" + (f[0] if f[0] != "spec" else f[1] if f[1] in V.INPUT_TYPES else "unsupported-type")
             if w[0] == "sig":
                 for p in w[1:]:
                     yield "param-kind:" + p.split(":")[1]
